@@ -38,7 +38,10 @@ SnaShapes ==
      im : {0, 2, 3, 255}, border : {0, 7, 8, 255}, latch : {0, 5, 32, 255}]
 \* chunk = [id, decl (declared size: "exact", "short1", "zero", "over", "huge"), var (variant of the contents)]
 SzxChunkIds == {"Z80R", "SPCR", "RAMP", "AY", "KEYB", "AMXM", "CRTR", "JUNK", "nonutf8", "z80r"}
-SzxChunks == [id : SzxChunkIds, decl : {"exact", "short1", "zero", "over", "huge"}, var : 0..3]
+\* RAMP variants: page numbers 5, 8, 255, 2 (compressed, short stream), 3, 7: the first page missing on either model,
+\* the last present one, and far out of range
+VarMax(i) == IF i = "RAMP" THEN 5 ELSE 3
+SzxChunks == UNION {[id : {i}, decl : {"exact", "short1", "zero", "over", "huge"}, var : 0..VarMax(i)] : i \in SzxChunkIds}
 SzxShapes1 == [fmt : {"szx"}, magic : {"ok", "bad", "nonutf8", "short"}, mid : {0, 1, 2, 3, 255}, chunks : {<<>>}]
                \cup [fmt : {"szx"}, magic : {"ok"}, mid : {1, 2}, chunks : {<<c>> : c \in SzxChunks}]
 \* pairs of chunks: a good Z80R or RAMP first, anything second (order effects, cursor arithmetic after a chunk)
